@@ -12,6 +12,7 @@ import (
 	"net"
 	"strings"
 	"testing"
+	"time"
 	"testing/synctest"
 
 	"github.com/named-data/ndnd/fw/face"
@@ -24,7 +25,8 @@ import (
 // ---------------------------------------------------------------- C11: stream framing
 
 type StreamConfig struct {
-	Target  string `json:"target"`            // fw (readTlvStream) | std (StreamFace.Run over net.Pipe)
+	Target  string `json:"target"`            // fw (readTlvStream) | std (StreamFace.Run over net.Pipe) | tcp, unix (the real transport's receive loop over a loopback socket; Reads are the sizes of the writes, the kernel decides the reads)
+	FaceMtu int    `json:"face_mtu,omitempty"` // tcp, unix: MTU configured on the face (a send-side limit; must not affect what is received)
 	Reads   []int  `json:"reads"`             // read/chunk sizes, used cyclically
 	TempErr []int  `json:"temp_err,omitempty"` // read indices at which a transient error is injected
 	ErrWithData bool `json:"err_with_data,omitempty"` // transient error returned together with n>0
@@ -84,6 +86,11 @@ func (StreamEngine) Generate(prop string, r *kit.Rand, tier string) *kit.Scenari
 	c.Target = "fw"
 	if r.Chance(0.3) {
 		c.Target = "std"
+	} else if r.Chance(0.05) {
+		c.Target = kit.Pick(r, []string{"tcp", "unix"})
+		if r.Chance(0.5) {
+			c.FaceMtu = kit.Pick(r, []int{128, 576, 1200, 1500, 4000})
+		}
 	}
 	c.EofAt = -1
 	// total size: mostly beyond one buffer wrap (32 x 8800 = 281600 bytes)
@@ -91,7 +98,7 @@ func (StreamEngine) Generate(prop string, r *kit.Rand, tier string) *kit.Scenari
 	if tier == "thorough" && r.Chance(0.2) {
 		total = 4000000
 	}
-	if c.Target == "std" && total > 300000 {
+	if c.Target != "fw" && total > 300000 {
 		total = 300000
 	}
 	types := []int{5, 6, 100, 0x64, 253, 800, 0x10000, 0x12345}
@@ -342,6 +349,46 @@ func (e StreamEngine) Run(t *testing.T, ctx *kit.Ctx, sc *kit.Scenario[StreamCon
 		if rd.calls > 0 && len(data) > maxPkt*32 {
 			ctx.Probe("stream-longer-than-receive-buffer")
 		}
+	case "tcp", "unix":
+		wire := openRealWire(sc.Config.Target)
+		if wire == nil {
+			ctx.Probe("loopback-sockets-unavailable")
+			res.Steps = len(blocks)
+			return res
+		}
+		var ls *face.VerifRecorderLinkService
+		rec := func(f []byte) { got = append(got, f) }
+		if wire.tcp != nil {
+			ls = face.MakeVerifRecorderLinkService(wire.tcp, rec)
+		} else {
+			ls = face.MakeVerifRecorderLinkService(wire.unix, rec)
+		}
+		if sc.Config.FaceMtu > 0 {
+			ls.SetMTU(sc.Config.FaceMtu)
+		}
+		ls.Run(nil)
+		ctx.Probe("receive-loop-of-real-" + sc.Config.Target + "-transport")
+		wire.peer.SetWriteDeadline(time.Now().Add(60 * time.Second))
+		for off, i := 0, 0; off < len(data); i++ {
+			n := reads[i%len(reads)]
+			if n < 1 {
+				n = 1
+			}
+			if n > len(data)-off {
+				n = len(data) - off
+			}
+			if _, err := wire.peer.Write(data[off : off+n]); err != nil {
+				break // the transport closed its end: the comparison below tells
+			}
+			off += n
+		}
+		wire.peer.Close() // end of stream
+		select {
+		case <-ls.Done():
+		case <-time.After(60 * time.Second):
+			panic("harness: the transport's receive loop did not end within 60 s of the end of the stream")
+		}
+		wire.close()
 	case "std":
 		var deadlock any
 		func() {
@@ -405,8 +452,8 @@ func (e StreamEngine) Run(t *testing.T, ctx *kit.Ctx, sc *kit.Scenario[StreamCon
 	}
 	wraps := len(data) / (maxPkt * 32)
 	ctx.ProbeN("buffer-wraps", wraps)
-	res.NonTrivial = (wraps >= 1 && hdrEnds > 0) || (sc.Config.Target == "std" && len(blocks) > 3)
-	d := kit.NewDigest().I(len(blocks)).I(len(data)).S(strings.Trim(fmt.Sprint(sc.Config.Reads), "[]")).I(sc.Config.EofAt).S(sc.Config.Target)
+	res.NonTrivial = (wraps >= 1 && hdrEnds > 0) || (sc.Config.Target != "fw" && len(blocks) > 3)
+	d := kit.NewDigest().I(len(blocks)).I(len(data)).S(strings.Trim(fmt.Sprint(sc.Config.Reads), "[]")).I(sc.Config.EofAt).S(sc.Config.Target).I(sc.Config.FaceMtu)
 	for _, b := range sc.Ops {
 		d.I(b.T).I(b.L).I(b.N)
 	}
